@@ -77,6 +77,49 @@ theorem isJsonNumber_dotless (n : Nat) (x : Int) : isJsonNumber (dotlessText n x
     · simp only [List.cons_append, List.append_assoc, List.nil_append]
       unfold isJsonNumber
       simp [hcm, h0, hc, hd, hc2, all_digits c2 r2 hc2 hr2]
+/-- the `E` notation without a precision, `d[.ddd]E±n`, is a JSON number -/
+theorem isJsonNumber_exponential (cfg : Config) (neg : Bool) (n : Nat) (scale : Int) :
+    isJsonNumber (exponentialText cfg neg n scale none 'E') = true := by
+  unfold exponentialText
+  obtain ⟨c, r, hn, hc, hr, hz⟩ := natStr_shape n
+  simp only [hn, List.length_cons, Nat.lt_irrefl, gt_iff_lt, decide_false, Bool.or_false, zeros,
+    List.replicate_zero, List.append_nil, List.take_succ_cons, List.take_zero, List.drop_succ_cons, List.drop_zero]
+  generalize ((r.length + 1 : Nat) : Int) + -scale - 1 = ex
+  unfold intStrPlus
+  obtain ⟨c2, r2, hn2, hc2, hr2, -⟩ := natStr_shape ex.natAbs
+  rw [hn2]
+  have hcm := isDigit_ne_minus c hc
+  have hE : isDigit 'E' = false := by decide
+  have hdot : isDigit '.' = false := by decide
+  have hall := all_digits c2 r2 hc2 hr2
+  by_cases hx : ex < 0
+  · cases r with
+    | nil =>
+      by_cases h0 : c = '0'
+      · subst h0
+        simp [isJsonNumber, hc2, hall, hx]
+      · simp only [List.length_nil]
+        unfold isJsonNumber; simp [hcm, h0, hc, hE, hc2, hall, hx]
+    | cons f fr =>
+      have h0 : c ≠ '0' := fun e => by have := hz e; cases this
+      have hf : isDigit f = true := hr f (by simp)
+      have hfr : ∀ x ∈ fr, isDigit x = true := fun x hx => hr x (by simp [hx])
+      have hd : ∀ t, (fr ++ 'E' :: t).dropWhile isDigit = 'E' :: t := fun t => dropWhile_digits fr t 'E' hfr hE
+      unfold isJsonNumber; simp [hcm, h0, hc, hE, hdot, hf, hd, hc2, hall, hx]
+  · cases r with
+    | nil =>
+      by_cases h0 : c = '0'
+      · subst h0
+        simp [isJsonNumber, hc2, hall, hx]
+      · simp only [List.length_nil]
+        unfold isJsonNumber; simp [hcm, h0, hc, hE, hc2, hall, hx]
+    | cons f fr =>
+      have h0 : c ≠ '0' := fun e => by have := hz e; cases this
+      have hf : isDigit f = true := hr f (by simp)
+      have hfr : ∀ x ∈ fr, isDigit x = true := fun x hx => hr x (by simp [hx])
+      have hd : ∀ t, (fr ++ 'E' :: t).dropWhile isDigit = 'E' :: t := fun t => dropWhile_digits fr t 'E' hfr hE
+      unfold isJsonNumber; simp [hcm, h0, hc, hE, hdot, hf, hd, hc2, hall, hx]
+
 /-- a leading minus sign in front of a digit is accepted and changes nothing else -/
 theorem isJsonNumber_neg (c : Char) (r : List Char) (hc : isDigit c = true) :
     isJsonNumber ('-' :: c :: r) = isJsonNumber (c :: r) := by
@@ -111,4 +154,43 @@ theorem jsonNumText_grammar_dotless (cfg : Config) (npl : Nat) (d : Dec)
     · have := isJsonNumber_dotless d.int.natAbs d.scale
       rw [he] at this ⊢
       simpa [isJsonNumber_neg c r hc] using this
+theorem exponentialText_head (cfg : Config) (neg : Bool) (n : Nat) (scale : Int) :
+    ∃ c r, exponentialText cfg neg n scale none 'E' = c :: r ∧ isDigit c = true := by
+  unfold exponentialText
+  obtain ⟨c, r, hn, hc, -, -⟩ := natStr_shape n
+  simp only [hn]
+  by_cases hnp : (decide ((c :: r).length > 1) || decide (0 > 0)) = true
+  · simp only [hnp, if_true, List.take_succ_cons, List.take_zero, List.cons_append, List.nil_append]
+    exact ⟨c, _, rfl, hc⟩
+  · simp only [hnp, List.cons_append]
+    exact ⟨c, _, rfl, hc⟩
+
+/-- the JSON-number adapter's text is inside serde_json's number grammar whenever `Display` picks the `E` or
+    the dotless notation, and for the special-cased zero of negative scale -/
+theorem jsonNumText_grammar_exp (cfg : Config) (npl : Nat) (d : Dec)
+    (h : chooseNotation cfg d.int.natAbs d.scale none ≠ .full ∨ (d.int = 0 ∧ d.scale < 0)) :
+    isJsonNumber (jsonNumText cfg npl d) = true := by
+  cases hnot : chooseNotation cfg d.int.natAbs d.scale none with
+  | dotless => exact jsonNumText_grammar_dotless cfg npl d (Or.inl hnot)
+  | full =>
+    rcases h with h | h
+    · exact absurd hnot h
+    · exact jsonNumText_grammar_dotless cfg npl d (Or.inr h)
+  | exponential =>
+    unfold jsonNumText
+    by_cases hz : d.int = 0 ∧ d.scale < 0
+    · rw [if_pos hz]; decide
+    · rw [if_neg hz]
+      unfold display
+      simp only [padIntegral_default]
+      rw [hnot]
+      simp only
+      obtain ⟨c, r, he, hc⟩ := exponentialText_head cfg (decide (d.int < 0)) d.int.natAbs d.scale
+      have := isJsonNumber_exponential cfg (decide (d.int < 0)) d.int.natAbs d.scale
+      cases hneg : decide (d.int < 0)
+      · rw [hneg] at this; simpa using this
+      · rw [hneg] at this he
+        rw [he] at this ⊢
+        simpa [isJsonNumber_neg c r hc] using this
+
 end BigDec
